@@ -1,5 +1,6 @@
 // dhcppool drives the real dhcp.Pool (pkg/dhcp/pool.go): Allocate by MAC, Release BY VALUE,
-// MarkUnavailable, Stats, on pools built by NewPool (generateAvailableIPs).
+// MarkUnavailable, Reserve (a specific address for a MAC), Stats, on pools built by NewPool
+// (generateAvailableIPs).
 package main
 
 import (
@@ -50,12 +51,17 @@ var largeGeos = []flx.V4{
 func randOp(r *rand.Rand, g geo, subs int) string {
 	m := fmt.Sprintf("m%d", 1+r.Intn(subs))
 	switch x := r.Intn(100); {
-	case x < 42:
+	case x < 36:
 		return "alloc " + m
-	case x < 72:
+	case x < 58:
 		return fmt.Sprintf("release %x", g.RandAddr(r))
-	case x < 84:
+	case x < 68:
 		return fmt.Sprintf("mark %x", g.RandAddr(r))
+	case x < 88:
+		// the requested address is drawn from the whole network and its surroundings: on these small
+		// pools it is, in turn, the client's own address, another client's, a free one, a declined one,
+		// the gateway, the network/broadcast address, a reserved one or one outside the network
+		return fmt.Sprintf("reserve %s %x", m, g.RandAddr(r))
 	default:
 		return "stats"
 	}
@@ -97,7 +103,7 @@ func (comp) Gen(r *rand.Rand, tier string, emit func([]string)) {
 	}
 }
 
-// exhaustive: every sequence of mutating operations to depth 5 over 3 MACs on a /29 with the gateway
+// exhaustive: every sequence of mutating operations (12 of them) to depth 5 over 3 MACs on a /29 with the gateway
 // inside (5 usable addresses) and a /30, followed by the observers.
 func exhaustive(emit func([]string)) {
 	for _, g := range []geo{{V4: smallGeos[2]}, {V4: smallGeos[0], re: 2}} {
@@ -110,6 +116,11 @@ func exhaustive(emit func([]string)) {
 			alpha = append(alpha, fmt.Sprintf("release %x", first+u))
 		}
 		alpha = append(alpha, fmt.Sprintf("mark %x", first), fmt.Sprintf("mark %x", first+1))
+		for s := 1; s <= 2; s++ {
+			for u := uint32(0); u < 2; u++ {
+				alpha = append(alpha, fmt.Sprintf("reserve m%d %x", s, first+u))
+			}
+		}
 		var rec func(prefix []string, depth int)
 		rec = func(prefix []string, depth int) {
 			if depth == 0 {
@@ -184,6 +195,12 @@ func (r *run) Do(op string) string {
 		}
 		r.p.MarkUnavailable(ip)
 		return "ok"
+	case f[0] == "reserve" && len(f) == 3 && strings.HasPrefix(f[1], "m"):
+		ip, ok := flx.ParseHex4(f[2])
+		if !ok {
+			return "badop"
+		}
+		return strconv.FormatBool(r.p.Reserve(mac(f[1]), ip))
 	case f[0] == "stats" && len(f) == 1:
 		s := r.p.Stats()
 		return fmt.Sprintf("%d %d %d %d", s.Allocated, s.Available, s.Total, s.Unavailable)
